@@ -174,3 +174,13 @@ def _loop_id(b, tm, h, info):
         t = b.term(h)
         return "non-iterator:" + (callee_name(t["callee"]) or "?").split("::")[-1] if t["k"] == "call" else "non-iterator"
     return T.show(info[0][2][0])[:70]
+
+
+_run_c21 = run
+
+
+def run(rep, programs):  # noqa: F811
+    _run_c21(rep, programs)
+    # the one waiting primitive gives up after n polls
+    from props import c03
+    c03.r_spin_wait(rep, programs["core"])
